@@ -355,6 +355,10 @@ CLAUSE_WHAT = {
     'annual-cooling': 'cooling_kWh_Produced[y] != integral of cooling_produced over year y x utilization',
     'annual-heat-zero': 'HeatkWhProduced is not zero for a pure electricity plant',
     'remaining': 'RemainingReservoirHeatContent[y] != initial - 3.6e-9 x cumulative HeatkWhExtracted',
+    'sutra-step': 'SUTRA: HeatInjected/HeatProduced/AuxiliaryHeatProduced/TotalHeatProduced[t] != the split of every second SimulatedHeat '
+                  '/ TargetHeat entry (injected + produced = simulated, auxiliary = max(0, target - simulated), total = produced + auxiliary)',
+    'sutra-annual': 'SUTRA: an annual heat figure / PumpingkWh != sum of the power series over the 730 steps of that year x time step',
+    'sutra-globals': 'SUTRA: SUTRATimeStep != T_end/len, number of years != round(T_end/8766), or max_peaking_boiler_demand != max annual auxiliary',
     'power-plant': 'TenteringPP / injection temperature / ElectricityProduced / HeatExtracted / HeatProduced != the power-plant model '
                    '(etau and ReinjTemp correlations x availability x flow; topping split at the modelled ReinjTemp)',
 }
@@ -370,7 +374,7 @@ class RunTerms:
     def __init__(self, snap):
         s = snapshot.S(snap)
         self.s, self.cls = s, snap['surfaceplant']['__class__']
-        self.binds, self.clauses, self.skipped, self.findings = [], [], [], []
+        self.binds, self.clauses, self.skipped, self.findings, self.tag, self.offs = [], [], [], [], '', (0.0, 0.0)
         self.eu = s.v('surfaceplant', 'enduse_option')['int']
         self.life, self.k = int(s.v('surfaceplant', 'plant_lifetime')), int(s.v('economics', 'timestepsperyear'))
 
@@ -416,9 +420,45 @@ def _offsets(s, life, eu):
     return offs_e, offs_h, sorted(why)
 
 
-def run_terms(snap):
-    """-> RunTerms for a claimed plant class, None otherwise.  Raises ValueError(name) on a non-finite input series."""
+def sutra_terms(snap, years):
+    """SUTRA plant: one unit for the scalars, one for the last step, one per checked year (730 steps = 1460 profile entries)."""
+    s = snapshot.S(snap)
+    T, q = fastlit.q(TOL), fastlit.q
+    tp, tg, sm = (s.v('reserv', a) for a in ('TimeProfile', 'TargetHeat', 'SimulatedHeat'))
+    sp = lambda a: s.v('surfaceplant', a)
+    dt, pump = sp('SUTRATimeStep'), s.v('wellbores', 'PumpingPower')
+    names = ('HeatInjected', 'HeatProduced', 'AuxiliaryHeatProduced', 'TotalHeatProduced')
+    ann = ('AnnualHeatInjected', 'AnnualHeatProduced', 'AnnualAuxiliaryHeatProduced', 'AnnualTotalHeatProduced', 'PumpingkWh')
+    nyears, units = len(sp('AnnualTotalHeatProduced')), []
+
+    def unit(tag):
+        R = RunTerms(snap)
+        R.k, R.tag = 0, tag
+        units.append(R)
+        return R
+    R = unit('globals')
+    R.clause('sutra-globals', f'check_sutra_globals {T} {q(tp[-1])} {len(tp)}%nat {q(dt)} {nyears}%nat '
+                              f'{R.series("annaux", sp("AnnualAuxiliaryHeatProduced"))} {q(sp("max_peaking_boiler_demand"))}')
+    R = unit('last-step')
+    R.clause('sutra-step', f'check_sutra_points {T} {q(dt)} {R.series("tg", tg[-1:])} {R.series("sm", sm[-1:])} ' +
+             ' '.join(R.series(n, sp(n)[-1:]) for n in names))
+    for y in (range(nyears) if years is None else sorted({y for y in years if y < nyears})):
+        R = unit(f'year{y}')
+        lo, hi = y * 730, (y + 1) * 730
+        ser = [R.series(n, sp(n)[lo:hi]) for n in names]
+        R.clause('sutra-step', f'check_sutra_points {T} {q(dt)} {R.series("tg", tg[2 * lo:2 * hi])} {R.series("sm", sm[2 * lo:2 * hi])} '
+                 + ' '.join(ser))
+        R.clause('sutra-annual', f'check_sutra_year {T} {q(dt)} ' + ' '.join(ser) + f' {R.series("pump", pump[lo:hi])} '
+                 + R.series('annual', [sp(a)[y] for a in ann]))
+    return units
+
+
+def run_terms(snap, years=None):
+    """-> RunTerms for a claimed plant class (a list of them for SUTRA), None otherwise.  Raises ValueError(name) on a
+    non-finite input series."""
     R = RunTerms(snap)
+    if R.cls == 'SurfacePlantSUTRA':
+        return sutra_terms(snap, years)
     if R.cls not in ELECTRIC | HEATING:
         return None
     s, T, q = R.s, fastlit.q(TOL), fastlit.q
@@ -501,7 +541,7 @@ def check_runs(ctx, part, labelled_texts, report=True):
             dist['rejected-or-crashed-before-the-hook'] = dist.get('rejected-or-crashed-before-the-hook', 0) + 1
             continue
         try:
-            R = run_terms(r['snap'])
+            R = run_terms(r['snap'], years=(0, 14, 29) if ctx.quick else None)
         except ValueError as e:
             dist['non-finite series ' + str(e)] = dist.get('non-finite series ' + str(e), 0) + 1
             continue
@@ -511,7 +551,8 @@ def check_runs(ctx, part, labelled_texts, report=True):
         if R is None:
             dist['plant class not claimed'] = dist.get('plant class not claimed', 0) + 1
             continue
-        items.append((label, text, R))
+        for U in (R if isinstance(R, list) else [R]):
+            items.append((label + ('#' + U.tag if U.tag else ''), text, U))
     failing = _kernel_bools(ctx, part, [R.term() for _, _, R in items], shard=max(1, min(4, len(items) // 16)))
     out = []
     diag = failing[:6]      # the failing clauses of the first few failing runs identify the defect; the rest is counted
@@ -582,6 +623,8 @@ def gen_runs(ctx):
     rnd = ctx.rng
     runs = [('corpus:' + p.name, p.read_text()) for p in sorted(CORPUS.glob('*.txt'))]
     runs += [('example:' + name, text) for name, text in configs.example_texts(ctx, slow=not ctx.quick)]
+    if ctx.quick:       # the SUTRA storage plant (5 s): three of its years in the quick tier, all of them in the thorough tier
+        runs.append(('example:SUTRAExample1.txt', (fw.REPO / 'tests' / 'examples' / 'SUTRAExample1.txt').read_text()))
     lives = [1, 2, 3, 7] if ctx.quick else [1, 2, 3, 7, 30, 100]
     cells = [(eu, pl) for eu in configs.ENDUSES for pl in (configs.ELEC_PLANTS if eu != 2 else configs.HEAT_PLANTS)]
     for rep in range(ctx.n(2, 12)):
@@ -639,8 +682,15 @@ def replay(ctx, data):
             print('run did not reach the hook:', r['error'])
             return 1
         R = run_terms(r['snap'])
-        names = [n for n, _ in R.clauses]
-        bad = {names[i] for i in _kernel_bools(ctx, 'replay', [R.term(only=n) for n in names], shard=4)}
+        if isinstance(R, list):     # SUTRA: one unit per year; a clause is violated when it fails in any unit
+            pairs = [(U, n) for U in R for n, _ in U.clauses]
+            failing = _kernel_bools(ctx, 'replay', [U.term(only=n) for U, n in pairs], shard=2)
+            for i in failing:
+                print(f'  unit {pairs[i][0].tag}: clause {pairs[i][1]} VIOLATED')
+            bad, names, R = {pairs[i][1] for i in failing}, sorted({n for _, n in pairs}), R[0]
+        else:
+            names = [n for n, _ in R.clauses]
+            bad = {names[i] for i in _kernel_bools(ctx, 'replay', [R.term(only=n) for n in names], shard=4)}
         print(f'{R.cls}, end-use {R.eu}, lifetime {R.life}, {R.k} steps/year; in-place offsets of the annual figures by: '
               f'{R.findings or "none"} (year 1: electricity {R.offs[0]:+.6g} kWh, heat {R.offs[1]:+.6g} kWh)')
         for n in names:
